@@ -91,7 +91,7 @@ def c13(out, tier):
 # ---------------------------------------------------------------- engine M properties (HTML tokenizer)
 # concrete probe appended after the symbolic part: it drives the tokenizer through look-ahead (eat), comment, DOCTYPE, tag,
 # attribute and character-reference machinery, so that any stale internal state left behind by the symbolic part becomes observable
-PROBE = "\n<!--x--><!DOCTYPE y><z w=v>&amp;</z>"
+PROBE = "\n<!--x--><!DOCTYPE y><z w=v>&amp;&zz;&#65;</z>"
 
 TOK_SRC = ["html5ever/src/tokenizer/mod.rs", "html5ever/src/tokenizer/char_ref/mod.rs", "html5ever/src/tokenizer/states.rs",
            "html5ever/src/tokenizer/interface.rs", "html5ever/src/util/str.rs", "html5ever/src/macros.rs", "web_atoms/build.rs",
@@ -320,10 +320,13 @@ def c03(out, tier):
     bases = [BASE, dict(BASE, exact_errors=True), dict(BASE, on_start="Script"), dict(BASE, on_start=("RawData", "Rcdata"))]
     units = tok_units(TC, tok, prog, k, classes, chunk_variants(TC), bases, kind="C03", keep_errors=True, line_oracle=False)
     # one more symbolic character from representative states (the pending-CR / look-ahead / char-ref machinery needs 3)
-    deep = [u for u in tok_units(TC, tok, prog, k + 1, [[1] * (k + 1)], chunk_variants(TC), [BASE], kind="C03", keep_errors=True, line_oracle=False)
+    # ('&' is excluded there: three symbolic characters after it fan out over the whole entity table; character references
+    # under chunking are covered by the concrete-prefix scenarios below)
+    deep = [u for u in tok_units(TC, tok, prog, k + 1, [[1] * (k + 1)], chunk_variants(TC), [BASE], kind="C03", keep_errors=True, line_oracle=False, exclude="&")
             if tok.state_spec(TC._tup(u["state"])) in DEEP_STATES]
     # and every state again with the concrete probe suffix (fed as a separate last chunk in the chunked runs)
-    probe = tok_units(TC, tok, prog, k, [[1] * k], chunk_variants(TC), [BASE], kind="C03", keep_errors=True, line_oracle=False, suffix=[ord(c) for c in PROBE])
+    probe = tok_units(TC, tok, prog, k, [[1] * k], chunk_variants(TC), [BASE], kind="C03", keep_errors=True, line_oracle=False, suffix=[ord(c) for c in PROBE],
+                      exclude="&")
     # concrete prefixes that park the tokenizer inside a look-ahead / character reference / pending CR, then symbolic characters,
     # cut at every position (also inside the prefix)
     scen = []
@@ -336,7 +339,7 @@ def c03(out, tier):
         for b in (BASE, dict(BASE, exact_errors=True)):
             scen.append({"kind": "C03", "state": st, "k": 2, "classes": [1, 1], "base": b, "variants": pv, "keep_errors": True, "line_oracle": False,
                          "prefix": [ord(c) for c in pre]})
-    units = units + deep + probe + scen
+    units = scen + deep + units + probe        # longest-running units first (pool scheduling only)
     res = TC.run_units(units, mir, ent)
     bounds = "all %d start states x %d symbolic characters (UTF-8 class vectors %s) x every split into non-empty chunks plus empty chunks at the front and in the middle x {default, exact_errors, sink answers Script, sink answers RawData(Rcdata)}; then EOF" % (
         len(tok.all_states(prog)), k, classes)
@@ -358,6 +361,17 @@ def c04(out, tier):
     def vs(k_, cls):
         return [("chunks%s" % c, {}, c) for c in TC.compositions(k_) if len(c) == k_] + [("simd-off", {"simd": False}, None)]
     units = tok_units(TC, tok, prog, k, classes, vs, bases, kind="C04", compare=False, line_oracle=False)
+    # every state again with the probe suffix, and concrete prefixes that park the tokenizer inside character references,
+    # look-ahead and attribute machinery
+    units += tok_units(TC, tok, prog, k, [[1] * k], vs, [BASE, dict(BASE, exact_errors=True)], kind="C04", compare=False, line_oracle=False,
+                       suffix=[ord(c) for c in PROBE])
+    for (st, pre) in (("Data", "&zz"), ("Data", "&#"), ("Data", "&#x"), ("Data", "&am"), ("Data", "&notit"), ("Data", "<!-"), ("Data", "</a"), ("Data", "<a b="),
+                      ("Data", "<!DOCTYPE a PUBLI"), ("Data", "<![CDAT"), (("AttributeValue", "DoubleQuoted"), "&zz"), (("RawData", "Rcdata"), "&zz"),
+                      (("RawData", "ScriptData"), "<!--<scrip")):
+        for e in (False, True):
+            n = len(pre) + 2
+            units.append({"kind": "C04", "state": st, "k": 2, "classes": [1, 1], "base": dict(BASE, exact_errors=e, foreign=(pre == "<![CDAT")),
+                          "variants": [("chunks%s" % ([1] * n), {}, [1] * n)], "compare": False, "line_oracle": False, "prefix": [ord(c) for c in pre]})
     res = TC.run_units(units, mir, ent)
     bounds = "HTML tokenizer: all %d start states x %d symbolic characters x {whole, one character per feed, SIMD off} x 6 sink answers x exact_errors, plus (foreign content, no last start tag); then end()" % (len(tok.all_states(prog)), k)
     # the XML tokenizer, same obligations
@@ -396,8 +410,20 @@ def c08(out, tier):
     cls3 = [[3] + [1] * (k - 1)]
     units += tok_units(TC, tok, prog, k, [[1] * k] + cls3, vb, [BASE], kind="C08bom", keep_errors=True, forbid_first=0xFEFF)
     units += tok_units(TC, tok, prog, k, cls3, vb2, [BASE], kind="C08bom1", keep_errors=True, force=[(0, 0xFEFF)])
+    # "under the same feed schedule": the same comparison with both runs chunked alike, one more character, representative states
+    deep = []
+    for st in tok.all_states(prog):
+        if tok.state_spec(st) not in DEEP_STATES:
+            continue
+        for comp in TC.compositions(k + 1):
+            if len(comp) == 1:
+                continue
+            deep.append({"kind": "C08", "state": st, "k": k + 1, "classes": [1] * (k + 1), "base": BASE, "base_lens": comp, "exclude": "&",
+                         "variants": [("exact_errors same chunks%s" % comp, {"exact_errors": True}, comp), ("simd-off same chunks%s" % comp, {"simd": False}, comp)],
+                         "keep_errors": False, "line_oracle": False})
+    units = deep + units
     res = TC.run_units(units, mir, ent)
-    bounds = "all %d start states x %d symbolic characters (class vectors %s): exact_errors on/off, SIMD path on/off, profile on/off (clock stub), exact_errors under one-character feeds; discard_bom on/off with first character != U+FEFF, and == U+FEFF against the input without it" % (len(tok.all_states(prog)), k, classes)
+    bounds = "all %d start states x %d symbolic characters (class vectors %s): exact_errors on/off, SIMD path on/off, profile on/off (clock stub), exact_errors under one-character feeds; 14 representative states with one more character and both runs chunked alike (every chunking); discard_bom on/off with first character != U+FEFF, and == U+FEFF against the input without it" % (len(tok.all_states(prog)), k, classes)
     npaths, obl = tok_finish(out, TC, tok, res, exe, exe_rel, "C08", False, "option variant vs default (tokens minus ParseError, line numbers)", bounds)
     out.assumptions += ["drop_doctype (tree builder) and the XML tokenizer's options are not covered by this check (C15 covers XML exact_errors)",
                         "profile: Instant/Duration are stubbed (every duration 0 ns), so only control flow through the profiling run loop is compared",
@@ -417,7 +443,7 @@ def c09(out, tier):
     units = tok_units(TC, tok, prog, k, classes, vs, bases, kind="C09", keep_errors=False, line_oracle=True)
     def vs3(k_, cls):
         return [("chunks%s" % c, {}, c) for c in TC.compositions(k_) if len(c) > 1]
-    units += [u for u in tok_units(TC, tok, prog, k + 1, [[1] * (k + 1)], vs3, [BASE], kind="C09", keep_errors=False, line_oracle=True)
+    units += [u for u in tok_units(TC, tok, prog, k + 1, [[1] * (k + 1)], vs3, [BASE], kind="C09", keep_errors=False, line_oracle=True, exclude="&")
               if tok.state_spec(TC._tup(u["state"])) in DEEP_STATES]
     res = TC.run_units(units, mir, ent)
     bounds = "all %d start states x %d symbolic ASCII characters (CR, LF and CRLF arise as values of the symbolic characters) x {whole, one character per feed, exact_errors}: for every emitted token, line == 1 + #line breaks in the characters the input queue had handed out at emission" % (len(tok.all_states(prog)), k)
@@ -509,7 +535,7 @@ def c14(out, tier):
     base = dict(BASE, discard_bom=False)
     units = []
     # numeric references
-    kq = 3 if tier == "quick" else 4
+    kq = 2 if tier == "quick" else 3
     for (st, cpre, csuf) in ctxs:
         for pre in ("&#", "&#x", "&#X"):
             units.append({"state": st, "k": kq, "classes": [1] * kq, "base": base, "prefix": [ord(c) for c in cpre + pre], "suffix": [ord(c) for c in csuf], "entities": snap_ents(snap)})
@@ -538,7 +564,7 @@ def c14(out, tier):
         sel = set(legacy) | set(prefixy) | set(rnd.sample(names, len(names) // 20))
         sel = sorted(sel)
         rnd.shuffle(sel)
-        sel = sel[:260]
+        sel = sel[:200]
     else:
         sel = names
     kf = 1 if tier == "quick" else 2
@@ -633,7 +659,8 @@ def c15(out, tier):
         for cls in classes:
             units.append({"kind": "C15", "state": st, "k": k, "classes": cls, "base": XBASE, "variants": vs(k, cls), "keep_errors": False, "line_oracle": False})
         if tok.state_spec(st) in XDEEP:
-            units.append({"kind": "C15", "state": st, "k": k + 1, "classes": [1] * (k + 1), "base": XBASE, "variants": vs(k + 1, None), "keep_errors": False, "line_oracle": False})
+            units.append({"kind": "C15", "state": st, "k": k + 1, "classes": [1] * (k + 1), "base": XBASE, "variants": vs(k + 1, None), "keep_errors": False,
+                          "line_oracle": False, "exclude": "&"})
     # character references next to line breaks / NUL: concrete reference + symbolic neighbours
     for (st, pre) in (("Data", "&#x41;"), ("Data", "&amp"), ("Data", "&#"), (("TagAttrValue", "DoubleQuoted"), "&lt;"), (("TagAttrValue", "Unquoted"), "&#65"), ("Data", "&x")):
         n = len(pre) + 2
@@ -650,17 +677,20 @@ def c15(out, tier):
     # absolute oracle: character data / attribute values are exactly the normalised input
     nunits = []
     kn = 2 if tier == "quick" else 3
-    for pre, resv in (("", []), ("&amp;", [38]), ("&a", [38, 97]), ("&#65;", [65]), ("x", [120]), ("&lt", [60]), ("&#x41", [65])):
+    for pre, resv in (("", []), ("&amp;", [38]), ("&z", [38, 122]), ("&#65;", [65]), ("x", [120]), ("&lt", [60]), ("&#x41", [65])):
         nb = dict(XBASE, state="Data", discard_bom=False)
-        ex = "<&" + (";" if pre in ("&a", "&lt", "&#x41") else "") + ("0123456789abcdefABCDEF" if pre == "&#x41" else "")
+        ex = "<&" + (";" if pre in ("&z", "&lt", "&#x41") else "") + ("0123456789abcdefABCDEF" if pre == "&#x41" else "")
         n_ = len(pre) + kn
         nunits.append({"prefix": pre, "resolved": resv, "k": kn, "classes": [1] * kn, "base": nb, "exclude": ex, "chunkings": [[1] * n_, [n_ - 1, 1]]})
         for q in ('"', "'"):
+            if pre in ("&lt", "&#x41"):
+                continue      # without ';' the attribute-value exception (as in HTML) may leave the text undecoded
             nunits.append({"prefix": "<a b=" + q + pre, "resolved": resv, "k": kn, "classes": [1] * kn, "base": nb, "exclude": ex + q, "suffix": q + ">",
                            "where": "attr", "chunkings": [[1] * (n_ + 9)]})
     nres = TC.run_units_fn(TC.unit_xmlnorm, nunits, mir, ent, crate="xml5ever")
     rnd = __import__("random").Random(C.seed())
     rnd.shuffle(units)
+    units.sort(key=lambda u: -u["k"])
     res = TC.run_units(units, mir, ent, crate="xml5ever") + nres
     bounds = ("xml5ever tokenizer: all %d start states x %d symbolic characters (class vectors %s): every split into chunks (and an empty first chunk), exact_errors on/off (whole and one character per feed), "
               "discard_bom on/off; plus character-reference prefixes followed by 2 symbolic characters; absolute normalisation oracle: text and quoted attribute values made of "
@@ -869,6 +899,7 @@ def tok_finish_c01(out, TC, tok, prog, results, exe, exe_rel, bounds):
                 out.inconclusive.append("C01 counter-example does not reproduce (native == reference on %r from %s)" % (v["chars"], v["state"]))
         for pn in r["panics"]:
             out.inconclusive.append("panic path during C01 exploration (reported by C04): %s %s %r" % (pn["what"], pn["state"], pn["chars"]))
+    out.extra["slowest_units"] = [(r["unit"], round(r["wall"], 1)) for r in sorted(results, key=lambda r: -r["wall"])[:8]]
     out.units.append({"engine": "mirsym + z3", "what": "implementation (interpreted MIR) vs WHATWG reference tokenizer, per path pair", "bounds": bounds,
                       "work_units": len(results), "paths_explored": npaths, "reference_paths": out.extra.get("ref_paths"), "obligations": obl,
                       "unit_wall_s_total": round(sum(r["wall"] for r in results), 1)})
